@@ -97,9 +97,12 @@ def record(lentil, tier, seed):
     for _ in range(150 if q else 1000):
         f = rng.choice((1, 2, 3))
         m, n = f * rng.randint(1, 3), f * rng.randint(1, 3)
-        a = nr.integers(0, 9, size=(m, n))
+        # counts near the top of narrow integer types, masks of booleans, floats: a block sum is the sum of its samples
+        dt = rng.choice((np.int64, np.uint8, np.int16, np.uint16, np.float32, bool))
+        hi_ = {np.uint8: 256, np.int16: 30000, np.uint16: 60000, bool: 2}.get(dt, 9)
+        a = nr.integers(0, hi_, size=(m, n)).astype(dt)
         add({'act': 'rebin', 'a': ints(a), 'f': f, 'out': ints(u.rebin(a, f))})
-        cu = nr.integers(0, 9, size=(2, m, n))
+        cu = nr.integers(0, hi_, size=(2, m, n)).astype(dt)
         add({'act': 'rebincube', 'cu': ints(cu), 'f': f, 'out': ints(u.rebin(cu, f))})
     # ---- centroid (rational: value * total must be the integer moment) ---------------------------------------
     for _ in range(200 if q else 1500):
@@ -139,7 +142,8 @@ def record(lentil, tier, seed):
             if kind == 'rectangle':
                 return lentil.rectangle((m, n), w, hgt, shift=shift, antialias=antialias)
             return lentil.rectangle((m, n), w, hgt, shift=shift, angle=ang, antialias=antialias)
-        b = draw((0, 0), False)
+        # 'no antialiasing' is a truth value however it is spelled (False, 0, numpy.False_, the outcome of a comparison)
+        b = draw((0, 0), rng.choice((False, False, 0, np.False_, np.bool_(0), np.float64(1.0) > 2)))
         if not np.all((b == 0) | (b == 1)):
             leaf.append(('shape-not-binary', {'kind': kind, 'shape': [m, n]}))
         add({'act': 'shape', 'kind': kind, 'm': ints(b), 'halfturn': True, 'mirror': kind in ('circle', 'hexagon', 'hexagon-rot', 'rectangle')})
